@@ -19,7 +19,10 @@ RULE = ("A real Zeroconf (single socket, or wildcard listen socket + v4 and v6 r
         "ttl/4-1 ms, ttl/4, ttl/4+1 ms, fresh, or long expired. Every datagram sent in the following 1.4 s is decoded by the "
         "independent parser and compared with a routing model: which records must go by unicast (to source addr/port, via the "
         "receiving socket, id echoed, questions echoed for legacy sources, no flush bits) and which by multicast (id 0, QR|AA, no "
-        "questions, flush bit exactly on non-PTR records, group address of the sending socket's family). Distinct = (source "
+        "questions, flush bit exactly on non-PTR records, group address of the sending socket's family). Extra families: two legacy "
+        "resolvers sending identical bytes, one mDNS sender repeating a query whose QU question is first/middle/last, a legacy "
+        "query arriving while a truncated query from port 5353 of the same address is being held; host names in several "
+        "spellings. Distinct = (source "
         "class, QU/QM mix, probe, recency bucket, layout, question type) classes.")
 ASSUMPTIONS = ["queries are spaced >= 2.6 s so that replies are attributable to one query",
                "'last multicast sighting' is read from the host's own cache (own transmissions loop back) just before the query arrives"]
